@@ -403,6 +403,24 @@ def clamp_rule(ctx):
                 vt = brief(val).replace(" ", "")
                 if ">=" in it and vt.endswith("-1") and vt[:-2] in it:
                     okr = True
+        # the same repair spelled as an upper clamp of the index: clamp(idx, max=K - 1),
+        # idx.clamp(max=K - 1), clamp_max, torch.minimum / torch.min with K - 1
+        for c in uwalk(path.ret):
+            if not (isinstance(c, ast.Call) and func_last(c) in ("clamp", "clamp_max", "minimum", "min")):
+                continue
+            is_mod = isinstance(c.func, ast.Attribute) and isinstance(c.func.value, ast.Name) and c.func.value.id == "torch"
+            recv = c.args[0] if is_mod and c.args else (c.func.value if isinstance(c.func, ast.Attribute) else None)
+            rest = c.args[1:] if is_mod else c.args
+            if func_last(c) == "clamp":
+                hi = next((k.value for k in c.keywords if k.arg == "max"), rest[1] if len(rest) > 1 else None)
+            else:
+                hi = next((k.value for k in c.keywords if k.arg in ("max", "other")), rest[0] if rest else None)
+            if recv is None or hi is None:
+                continue
+            has_floor = any(isinstance(x, ast.Call) and func_last(x) == "floor" for x in uwalk(recv))
+            ht = brief(hi).replace(" ", "")
+            if has_floor and ht.endswith("-1") and ht[:-2] and ht[:-2] in brief(recv).replace(" ", ""):
+                okr = True  # floor(x * K) capped at K - 1
     if okr:
         res.ok("linear_spline forward: bin index >= K is repaired to K - 1 (input exactly at the upper end)")
     else:
